@@ -2,8 +2,6 @@ CONSTANTS
   FULL = FALSE
 INIT Init
 NEXT Next
-INVARIANT LawPct
-INVARIANT LawPctErr
 INVARIANT LawDenote
 INVARIANT LawDevScope
 INVARIANT LawNorm
